@@ -23,7 +23,7 @@ META = {
         "Bounded stand-in for the fix-point result of DecayChain.flatten: the real function is run on every acyclic chain "
         "shape (one per class up to renaming) of the listed families -- quick: <= 4 decaying particles with multiplicities "
         "<= 3 plus slimmer families with 5 and 6 decaying particles (4 and 5 sub-decays); thorough: larger families up to 6 "
-        "decaying particles and a seeded random supplement with up to 8 -- for every subset of the decaying particles (without "
+        "decaying particles and a seeded random supplement with up to 7 -- for every subset of the decaying particles (without "
         "the mother) as the stable set, every other choice of the mother inside the same mapping (unreachable entries), every "
         "permutation of the mapping for <= 4 entries (rotations/reversal beyond), with exact Fractions 1/prime as branching "
         "fractions (a missing or doubled factor changes the value) and again with floats (tolerance: one ulp per decay in the "
@@ -41,9 +41,9 @@ FAMILIES = {
     "quick": [(1, 2, 3, 3, 9), (2, 2, 3, 3, 9), (3, 2, 3, 3, 4), (4, 1, 3, 3, 3), (4, 2, 2, 2, 2),
               (5, 1, 3, 1, 3), (5, 1, 2, 2, 2), (6, 1, 2, 1, 2)],
     "thorough": [(1, 2, 3, 3, 9), (2, 2, 3, 3, 9), (3, 2, 3, 3, 9), (4, 1, 3, 3, 4), (4, 2, 3, 3, 3),
-                 (5, 1, 3, 2, 3), (5, 2, 2, 2, 2), (6, 1, 3, 1, 3), (6, 1, 2, 2, 2)],
+                 (5, 1, 3, 2, 3), (5, 2, 2, 2, 2), (6, 1, 2, 1, 2), (6, 1, 2, 2, 2)],
 }
-N_RANDOM = {"quick": 0, "thorough": 40000}
+N_RANDOM = {"quick": 0, "thorough": 10000}
 
 TOP_META = {"model": "PHSP", "model_params": [1.5, "x"], "study": {"k": [1, None, "a"]}, "year": 2019}
 SUB_METAS = [{}, {"model": "VSS"}, {"model": "HELAMP", "model_params": [1.0, 0.0], "note": "sub"}]
@@ -237,11 +237,11 @@ def _worker(task):
                 if any("CallTimeout" in what for _c, _f, what in res):
                     aborted = True
                     break
-        if aborted:       # do not spend the time limit again and again in this slice
-            break
-            if sample is None and first and len(S) >= 1 and len(shape) >= 3:
+            if sample is None and first and len(S) >= 1 and len(shape) >= 3 and cs.n_decay_occurrences(chain, S) >= 2:
                 sample = {"chain": cs.chain_to_json(chain), "S": list(S), "s_type": st,
                           "leaves": sorted(cs.leaves(chain, S).items()), "bf": str(cs.bf(chain, S))}
+        if aborted:       # do not spend the time limit again and again in this slice
+            break
     return dict(task=list(task[:2]) if kind == "family" else ["random"], evals=evals, distinct=distinct, nontriv=nontriv,
                 shapes=nshapes, shapes_gt3_subdecays=big, fails=fails, sample=sample, aborted=aborted)
 
